@@ -130,15 +130,39 @@ func checkC19(c *Ctx) {
 		if b, ok := fn.Signature.Results().At(0).Type().Underlying().(*types.Basic); !ok || b.Kind() != types.Bool {
 			continue
 		}
-		isOpc := func(t types.Type) bool {
-			n, ok := t.(*types.Named)
-			return ok && n.Obj().Name() == "Opcode" && n.Obj().Pkg() != nil && n.Obj().Pkg().Path() == opkg
-		}
-		if isOpc(fn.Params[0].Type()) && isOpc(fn.Params[1].Type()) {
+		// two patterns: Opcode values or the package's records around one
+		if isPattern(fn.Params[0].Type()) && types.Identical(fn.Params[0].Type(), fn.Params[1].Type()) {
+			if fn.Blocks == nil {
+				continue
+			}
 			checkConflictPredicate(c, fn)
 		}
 	}
 
+	// the pattern record's cached masked bytes
+	if pk := c.Prog.ByPath[opkg]; pk != nil {
+		sc := pk.Types.Scope()
+		for _, n := range sc.Names() {
+			tn, ok := sc.Lookup(n).(*types.TypeName)
+			if !ok || !isPattern(tn.Type()) {
+				continue
+			}
+			st, ok := tn.Type().Underlying().(*types.Struct)
+			if !ok {
+				continue
+			}
+			field, nb := "", 0
+			for i := 0; i < st.NumFields(); i++ {
+				if isByteSliceT(st.Field(i).Type()) {
+					field = st.Field(i).Name()
+					nb++
+				}
+			}
+			if nb == 1 {
+				checkMaskedField(c, opkg, tn.Type(), field)
+			}
+		}
+	}
 	checkMatchInstruction(c, opkg, enter, lt, eq)
 	checkGrouping(c, opkg, lt, eq)
 }
@@ -252,6 +276,67 @@ func fieldOfParam(v ssa.Value) (p *ssa.Parameter, name string, ok bool) {
 		}
 	}
 	return nil, "", false
+}
+
+// fieldPathOfParam: v reads p.f1.f2...; the field names from the parameter on.
+func fieldPathOfParam(v ssa.Value) (p *ssa.Parameter, path []string, ok bool) {
+	switch x := v.(type) {
+	case *ssa.Parameter:
+		return x, nil, true
+	case *ssa.Field:
+		q, pp, ok := fieldPathOfParam(x.X)
+		if !ok {
+			return nil, nil, false
+		}
+		return q, append(pp, fieldNameOf(x)), true
+	case *ssa.UnOp:
+		if x.Op != token.MUL {
+			return nil, nil, false
+		}
+		switch a := x.X.(type) {
+		case *ssa.FieldAddr:
+			q, pp, ok := fieldPathOfAddr(a.X)
+			if !ok {
+				return nil, nil, false
+			}
+			return q, append(pp, fieldNameOf(a)), true
+		case *ssa.Alloc:
+			return fieldPathOfAddr(a)
+		}
+	}
+	return nil, nil, false
+}
+
+// fieldPathOfAddr: the address of p.f1.f2... where p is a parameter spilled to a local.
+func fieldPathOfAddr(v ssa.Value) (*ssa.Parameter, []string, bool) {
+	switch a := v.(type) {
+	case *ssa.FieldAddr:
+		q, pp, ok := fieldPathOfAddr(a.X)
+		if !ok {
+			return nil, nil, false
+		}
+		return q, append(pp, fieldNameOf(a)), true
+	case *ssa.Alloc:
+		if a.Referrers() == nil {
+			return nil, nil, false
+		}
+		var q *ssa.Parameter
+		n := 0
+		for _, r := range *a.Referrers() {
+			if st, isSt := r.(*ssa.Store); isSt && st.Addr == ssa.Value(a) {
+				n++
+				q, _ = st.Val.(*ssa.Parameter)
+			}
+		}
+		if n == 1 && q != nil {
+			return q, nil, true
+		}
+	case *ssa.Parameter:
+		if _, isPtr := a.Type().Underlying().(*types.Pointer); isPtr {
+			return a, nil, true
+		}
+	}
+	return nil, nil, false
 }
 
 func allByteStrings(maxLen int, vals int64) [][]int64 {
@@ -551,20 +636,46 @@ func checkConflictPredicate(c *Ctx, fn *ssa.Function) {
 			scens = append(scens, s)
 		}
 	}
+	// the cached masked bytes of a pattern record: its only []byte field
+	maskedField, usesMasked := "", false
+	if st, ok := fn.Params[0].Type().Underlying().(*types.Struct); ok {
+		for i := 0; i < st.NumFields(); i++ {
+			if isByteSliceT(st.Field(i).Type()) {
+				if maskedField != "" {
+					maskedField = "?"
+				} else {
+					maskedField = st.Field(i).Name()
+				}
+			}
+		}
+	}
 	bad, walked := "", 0
 	for _, s := range scens {
 		s := s
+		if len(s.b1) != len(s.m1) || len(s.b2) != len(s.m2) {
+			continue
+		}
 		m := newBSMachine(SamePackage(fn), func(v ssa.Value) ([]int64, bool) {
-			if p, name, ok := fieldOfParam(v); ok {
-				switch {
-				case p == fn.Params[0] && name == "Bytes":
-					return s.b1, true
-				case p == fn.Params[0] && name == "Mask":
-					return s.m1, true
-				case p == fn.Params[1] && name == "Bytes":
-					return s.b2, true
-				case p == fn.Params[1] && name == "Mask":
-					return s.m2, true
+			if p, path, ok := fieldPathOfParam(v); ok && len(path) > 0 && (p == fn.Params[0] || p == fn.Params[1]) {
+				b, mk := s.b1, s.m1
+				if p == fn.Params[1] {
+					b, mk = s.b2, s.m2
+				}
+				switch name := path[len(path)-1]; {
+				case name == "Bytes":
+					return b, true
+				case name == "Mask":
+					return mk, true
+				case len(path) == 1 && name == maskedField:
+					// the record's cached masked bytes (C19.conflict/masked-field)
+					usesMasked = true
+					out := make([]int64, len(mk))
+					for i := range mk {
+						if i < len(b) {
+							out[i] = b[i] & mk[i]
+						}
+					}
+					return out, true
 				}
 			}
 			return nil, false
@@ -594,6 +705,121 @@ func checkConflictPredicate(c *Ctx, fn *ssa.Function) {
 	}
 	c.Oblige("C19.conflict", ShortName(fn), c.Prog.FuncPos(fn), bad == "", bad)
 	c.Saw("conflict_scenarios", fmt.Sprintf("%s: %d", ShortName(fn), walked))
+	_ = usesMasked // the field's content is decided for every tree: C19.match .../<field>
+}
+
+// checkMaskedField: the predicate read the pattern record's cached masked bytes
+// and was walked with them equal to bytes & mask; that is what the record must
+// hold: every store to the field is g(o.Bytes, o.Mask) of the Opcode o the
+// record is built around, and g, walked over small strings, is the bytewise
+// conjunction over the mask's length.
+func checkMaskedField(c *Ctx, pkgPath string, rec types.Type, field string) {
+	key := "internal/opcode." + NamedOf(rec).Obj().Name() + "/" + field
+	nStores := 0
+	bad := ""
+	var maskFn *ssa.Function
+	for _, f := range c.Prog.FuncsIn(pkgPath) {
+		for _, b := range f.Blocks {
+			for _, in := range b.Instrs {
+				st, ok := in.(*ssa.Store)
+				if !ok {
+					continue
+				}
+				fa, ok := st.Addr.(*ssa.FieldAddr)
+				if !ok || fieldNameOf(fa) != field || !sameNamedOrigin(derefT(fa.X.Type()), rec) {
+					continue
+				}
+				nStores++
+				call, ok := st.Val.(*ssa.Call)
+				if !ok || call.Call.StaticCallee() == nil || len(call.Call.Args) != 2 {
+					bad = c.Prog.Pos(st.Pos()) + ": not a call g(bytes, mask)"
+					continue
+				}
+				n0, o0, ok0 := FieldNameOfRead(call.Call.Args[0])
+				n1, o1, ok1 := FieldNameOfRead(call.Call.Args[1])
+				if !ok0 || !ok1 || n0 != "Bytes" || n1 != "Mask" || !SameValue(o0, o1) {
+					bad = c.Prog.Pos(st.Pos()) + ": the arguments are not the Bytes and the Mask of one Opcode"
+					continue
+				}
+				// that Opcode is the one stored in the same record
+				same := false
+				if fa.X.Referrers() != nil {
+					for _, r := range *fa.X.Referrers() {
+						if fa2, ok := r.(*ssa.FieldAddr); ok && fa2.Referrers() != nil {
+							for _, rr := range *fa2.Referrers() {
+								if st2, ok := rr.(*ssa.Store); ok && st2.Addr == ssa.Value(fa2) {
+									if st2.Val == o0 || SameValue(st2.Val, o0) {
+										same = true
+									}
+									// the Opcode lives in a local: the record gets a load of it
+									if ld, isLd := st2.Val.(*ssa.UnOp); isLd && ld.Op == token.MUL && ld.X == o0 {
+										same = true
+									}
+								}
+							}
+						}
+					}
+				}
+				if !same {
+					bad = c.Prog.Pos(st.Pos()) + ": the masked bytes are those of another Opcode than the record's"
+				}
+				maskFn = Origin(call.Call.StaticCallee())
+			}
+		}
+	}
+	if nStores == 0 {
+		bad = "no construction of the pattern record found"
+	}
+	if bad == "" && maskFn != nil && maskFn.Blocks != nil && len(maskFn.Params) == 2 {
+		strs := allByteStrings(2, 4)
+		for _, mk := range strs {
+			for _, b := range strs {
+				if len(b) < len(mk) || bad != "" {
+					continue
+				}
+				h := newByteHeap(maskFn, nil, 0)
+				bb, mm := append([]int64(nil), b...), append([]int64(nil), mk...)
+				h.slices = map[*ssa.Parameter]*[]int64{maskFn.Params[0]: &bb, maskFn.Params[1]: &mm}
+				res, why := h.walk()
+				if why != "" {
+					bad = fmt.Sprintf("%s for bytes %v mask %v: %s", ShortName(maskFn), b, mk, why)
+					break
+				}
+				vw, ok := h.viewOf(res.End.(*ssa.Return).Results[0])
+				if !ok {
+					bad = ShortName(maskFn) + ": the result cannot be evaluated"
+					break
+				}
+				got := vw.bytes()
+				if int64(len(mk)) != vw.n {
+					bad = fmt.Sprintf("%s(%v, %v) has %d bytes, the mask has %d", ShortName(maskFn), b, mk, vw.n, len(mk))
+					break
+				}
+				for i := range mk {
+					if got[i] != b[i]&mk[i] {
+						bad = fmt.Sprintf("%s(%v, %v) = %v, not the bytewise conjunction", ShortName(maskFn), b, mk, got)
+					}
+				}
+			}
+		}
+	} else if bad == "" {
+		bad = "the function computing the masked bytes cannot be followed"
+	}
+	c.Oblige("C19.match", key, "-", bad == "", "the cached masked bytes of a pattern record must equal bytes & mask (the lookup and, where it reads them, the conflict predicate rely on it): "+bad)
+}
+
+// sameNamedOrigin: the same named type, whatever its type arguments.
+func sameNamedOrigin(a, b types.Type) bool {
+	na, ok1 := a.(*types.Named)
+	nb, ok2 := b.(*types.Named)
+	return ok1 && ok2 && na.Origin().Obj() == nb.Origin().Obj()
+}
+
+func derefT(t types.Type) types.Type {
+	if p, ok := t.Underlying().(*types.Pointer); ok {
+		return p.Elem()
+	}
+	return t
 }
 
 // orderAtoms: Bool atoms for calls of byteLT/byteEQ whose operands are
